@@ -1,7 +1,7 @@
 (** Monomorphic helpers for the OCaml driver: conversions between plain lists
     and the finite maps / sets of the model, and decidable equalities.  Used
     only by the correspondence check; no theorem depends on this file. *)
-From Crdt Require Import model.VClock model.Simple model.Orswot model.MVReg model.Map
+From Crdt Require Import spec.System model.VClock model.Simple model.Orswot model.MVReg model.Map
   model.Identifier model.List model.Merkle.
 
 Definition vc_of_list (l : list (N * N)) : gmap N N := list_to_map l.
@@ -44,3 +44,6 @@ Definition z_of_n := Z.of_N.
 Definition mkqc (num : Z) (den : positive) : Qc := Q2Qc (Qmake num den).
 Definition n_to_nat := N.to_nat.
 Definition n_of_nat := N.of_nat.
+
+Definition natset_of_list (l : list nat) : gset nat := list_to_set l.
+Definition mk_oprec {Op} (a : N) (o : Op) (deps : list nat) : oprec Op := OpRec a o (list_to_set deps).
